@@ -38,6 +38,10 @@ func DecoderSchema(w *World) func(fn *ssa.Function) *Contract {
 			}
 			ct.Ensures = []*Clause{{Props: []string{"C07"}, Label: "consumed-in-bounds", Text: "err == nil ==> 0 <= n <= len(input)", Expr: x}}
 		}
+		if ct == nil && (fn.Name() == "FromBytes" || fn.Name() == "FromRawBytes") && sig.Params().Len() >= 1 && isByteSlice(sig.Params().At(0).Type()) {
+			// decoder without consumed-length result: frame = receiver, nothing promised about the result
+			ct = &Contract{Key: fn.String(), PkgPath: pp, Func: fn.Name(), Mode: "bv", Schema: "decoder FromBytes([]byte, ...): no panic, writes only its receiver", Bounds: map[string]int{}, Ifaces: map[string]string{}, Props: map[string]bool{"C07": true}}
+		}
 		return ct
 	}
 }
